@@ -20,7 +20,6 @@ package main
 
 import (
 	"fmt"
-	"os"
 	"sort"
 	"strings"
 	"sync"
@@ -109,6 +108,8 @@ type scenario struct {
 	// delegation expires while its servers are still being asked (l3 qrace).
 	race    *inst
 	raceLin int
+
+	soft string // known-finding verdict of the last audit (reported only if nothing else failed)
 }
 
 // grantOver12h: some incarnation of the zone is delegated with min(NS, DS) TTL ≥ 12 h,
@@ -493,6 +494,25 @@ func bucket(e authority.VerifC08Entry) int {
 	return 0
 }
 
+// finish runs the state audit and picks the op's verdict: a violation found by the
+// op itself, else one found by the audit, else a known-finding verdict (lowest
+// priority, so it never hides anything else).
+func (s *scenario) finish(verdict string, softs ...string) string {
+	a := s.audit()
+	if verdict != "ok" {
+		return verdict
+	}
+	if a != "ok" {
+		return a
+	}
+	for _, x := range append(softs, s.soft) {
+		if x != "" {
+			return x
+		}
+	}
+	return "ok"
+}
+
 // audit judges the stored delegation leases.
 func (s *scenario) audit() string {
 	s.quiesce()
@@ -501,11 +521,13 @@ func (s *scenario) audit() string {
 	entries := authority.VerifC08Entries(resolver.VerifDelegations(s.p.Resolver))
 	sort.Slice(entries, func(a, b int) bool { return entries[a].Key < entries[b].Key })
 	verdict := "ok"
+	soft := ""
 	fail := func(v string) {
 		if verdict == "ok" {
 			verdict = v
 		}
 	}
+	defer func() { s.soft = soft }()
 	for _, e := range entries {
 		rem := time.Until(e.ExpiresAt)
 		zone := lcn(e.Zone)
@@ -547,8 +569,8 @@ func (s *scenario) audit() string {
 						b0 = c
 					}
 				}
-				if b0 != nil && abs > b0.bound[0]+slack {
-					fail(fmt.Sprintf("FAIL sig=l3/lease/cd1-bucket-ignores-ds-ttl zone=%s nds=%d rem=%s allowed=%s", zone, e.NDS, rem, b0.bound[0]-now))
+				if b0 != nil && abs > b0.bound[0]+slack && soft == "" {
+					soft = fmt.Sprintf("FAIL sig=l3/lease/cd1-bucket-ignores-ds-ttl zone=%s nds=%d rem=%s allowed=%s", zone, e.NDS, rem, b0.bound[0]-now)
 				}
 			}
 			if prev, ok := s.prevAbs[e.Key]; ok && abs > prev+slack && s.prevRefs[e.Key] == refs {
@@ -663,6 +685,7 @@ func execQuery(s *scenario, f []string) vlib.Res {
 	resp := s.p.Query(f[2], qt, fl)
 	s.queries++
 	verdict := "ok"
+	softQ := ""
 	impl := "noreply"
 	if resp != nil {
 		var olds, news int
@@ -739,15 +762,17 @@ func execQuery(s *scenario, f []string) vlib.Res {
 					}
 				}
 				if failed == 3 {
-					verdict = fmt.Sprintf("FAIL sig=%s q=%s/%s want=%s", sig, lcn(f[2]), f[3], tr.Kind)
+					v := fmt.Sprintf("FAIL sig=%s q=%s/%s want=%s", sig, lcn(f[2]), f[3], tr.Kind)
+					if sig == "l3/reply/not-following-parent" {
+						verdict = v
+					} else {
+						softQ = v
+					}
 				}
 			}
 		}
 	}
-	if a := s.audit(); verdict == "ok" {
-		verdict = a
-	}
-	return vlib.Res{Impl: impl, Oracle: verdict, Tags: tags}
+	return vlib.Res{Impl: impl, Oracle: s.finish(verdict, softQ), Tags: tags}
 }
 
 func execL3(f []string) vlib.Res {
@@ -764,7 +789,7 @@ func execL3(f []string) vlib.Res {
 	case "adv":
 		s.quiesce()
 		s.p.Advance(time.Duration(vlib.AtoI64(f[2])) * time.Millisecond)
-		return vlib.Res{Impl: "ok", Oracle: s.audit(), Tags: "l3"}
+		return vlib.Res{Impl: "ok", Oracle: s.finish("ok"), Tags: "l3"}
 	case "end":
 		// advance to the (old) delegation's lease end as the oracle computes it, plus delta
 		s.quiesce()
@@ -780,13 +805,13 @@ func execL3(f []string) vlib.Res {
 			}
 		}
 		if target == nil {
-			return vlib.Res{Impl: "nolease", Oracle: s.audit(), Tags: "l3"}
+			return vlib.Res{Impl: "nolease", Oracle: s.finish("ok"), Tags: "l3"}
 		}
 		d := target.bound[lin] + time.Duration(vlib.AtoI64(f[3]))*time.Millisecond - s.vnow()
 		if d > 0 {
 			s.p.Advance(d)
 		}
-		return vlib.Res{Impl: "ok", Oracle: s.audit(), Tags: "l3"}
+		return vlib.Res{Impl: "ok", Oracle: s.finish("ok"), Tags: "l3"}
 	case "withdraw":
 		i := s.current(f[2])
 		if i == nil || i.idx == 0 || i.withdrawn {
@@ -795,7 +820,7 @@ func execL3(f []string) vlib.Res {
 		s.quiesce()
 		s.w.Delegation(i.name).Removed = true
 		s.markWithdrawn(i)
-		return vlib.Res{Impl: "ok", Oracle: s.audit(), Tags: "l3"}
+		return vlib.Res{Impl: "ok", Oracle: s.finish("ok"), Tags: "l3"}
 	case "repoint":
 		i := s.current(f[2])
 		if i == nil || i.idx == 0 || i.idx == 9 || len(f) < 6 {
@@ -820,7 +845,7 @@ func execL3(f []string) vlib.Res {
 			n := s.addInst(k, old.gen+1, par, nsTTL, dsTTL, old.signed, mode)
 			par = n
 		}
-		return vlib.Res{Impl: "ok", Oracle: s.audit(), Tags: "l3"}
+		return vlib.Res{Impl: "ok", Oracle: s.finish("ok"), Tags: "l3"}
 	case "behave":
 		i := s.current(f[2])
 		if i == nil || i.idx == 0 {
@@ -834,7 +859,7 @@ func execL3(f []string) vlib.Res {
 			delete(i.z.Records[i.name], dns.TypeNS)
 			i.z.Add(fmt.Sprintf("%s %d IN NS nsx.%s", i.name, hugeTTL, i.name), fmt.Sprintf("nsx.%s %d IN A %s", i.name, hugeTTL, i.srv.IP))
 		}
-		return vlib.Res{Impl: "ok", Oracle: s.audit(), Tags: "l3"}
+		return vlib.Res{Impl: "ok", Oracle: s.finish("ok"), Tags: "l3"}
 	case "qrace":
 		// l3 qrace <zone> [cd]: ask the zone's (old) servers for sr.<zone>; they let their own
 		// lease run out and then answer with a self-referral carrying a one-week TTL.
@@ -861,7 +886,7 @@ func execL3(f []string) vlib.Res {
 		s.race = nil
 		return res
 	case "audit":
-		return vlib.Res{Impl: "ok", Oracle: s.audit(), Tags: "l3"}
+		return vlib.Res{Impl: "ok", Oracle: s.finish("ok"), Tags: "l3"}
 	}
 	return vlib.Res{Impl: "bad-op"}
 }
@@ -884,66 +909,17 @@ func (s *scenario) markWithdrawn(i *inst) {
 var leaseTTLs = []int{1, 2, 3, 5, 10, 30, 60, 300, 3600, 43199, 43200}
 var longTTLs = []int{43201, 86400, 172800}
 
-// strictDS: judge the CD=1 bucket of the delegation cache by min(NS, DS) as well (the
-// literal property text). On the unchanged tree that bucket retains no DS set and
-// leases for the NS TTL (notes/C08.md), so this is only switched on by
-// VERIF_C08_STRICT_DS=1 or once both signatures are listed as known findings.
-var strictOnce sync.Once
-var strictOn bool
-
-func strictDS() bool {
-	strictOnce.Do(func() {
-		switch os.Getenv("VERIF_C08_STRICT_DS") {
-		case "1":
-			strictOn = true
-			return
-		case "0":
-			return
-		}
-		strictOn = knownFinding("l3/lease/cd1-bucket-ignores-ds-ttl") && knownFinding("l3/reply/not-following-parent/cd1-lineage-live")
-	})
-	return strictOn
-}
-
-func knownFinding(sig string) bool {
-	dir := os.Getenv("VERIF_DIR")
-	if dir == "" {
-		dir = "/verif"
-	}
-	b, err := os.ReadFile(dir + "/known_findings.jsonl")
-	if err != nil {
-		return false
-	}
-	for _, ln := range strings.Split(string(b), "\n") {
-		if strings.Contains(ln, "\"C08\"") && strings.Contains(ln, "\"known\"") && strings.Contains(ln, "\""+sig+"\"") {
-			return true
-		}
-	}
-	return false
-}
-
-// allowCeilingGap: delegations whose NS/DS TTLs exceed the 12 h ceiling are only
-// generated when asked for (VERIF_C08_CEILING=1) or once the candidate finding
-// they expose on the unchanged tree (notes/C08.md) is listed in known_findings.jsonl.
-var ceilingOnce sync.Once
-var ceilingOn bool
-
-func allowCeilingGap() bool {
-	ceilingOnce.Do(func() {
-		switch os.Getenv("VERIF_C08_CEILING") {
-		case "1":
-			ceilingOn = true
-			return
-		case "0":
-			return
-		}
-		ceilingOn = knownFinding("l3/reply/served-past-12h-ceiling") && knownFinding("l3/lease/descendant-outlives-ancestor/ceiling-reanchored")
-	})
-	return ceilingOn
-}
+// strictDS: the CD=1 bucket of the delegation cache is judged by min(NS, DS) as
+// well — the literal property text ("the smaller of the referral's NS and DS
+// TTLs"). On the current tree that bucket retains no DS set and leases for the
+// NS TTL; the two signatures this produces are recorded as known findings
+// (l3/lease/cd1-bucket-ignores-ds-ttl, l3/reply/not-following-parent/cd1-lineage-live).
+// They are reported only when nothing else is wrong with the same op, so they
+// can never mask a different violation.
+func strictDS() bool { return true }
 
 func pickTTL(r *vlib.R) int {
-	if allowCeilingGap() && r.Chance(1, 4) {
+	if r.Chance(1, 5) {
 		return vlib.Pick(r, longTTLs)
 	}
 	switch r.Intn(4) {
@@ -1013,12 +989,12 @@ func genL3Case(r *vlib.R, n int, emit func(string)) int {
 	case 6: // the 12 h ceiling decides
 		nsT[vic-1], dsT[vic-1] = vlib.Pick(r, []int{43199, 43200}), 43200
 		attl, neg = 86400, 86400
-	case 7:
-		if allowCeilingGap() {
-			// NS/DS TTLs beyond the ceiling and data that lives longer than 12 h
-			nsT[vic-1], dsT[vic-1] = vlib.Pick(r, longTTLs), vlib.Pick(r, longTTLs)
-			attl, neg = 86400, 86400
+	case 7: // NS/DS TTLs beyond the ceiling and data that lives longer than 12 h
+		nsT[vic-1], dsT[vic-1] = vlib.Pick(r, longTTLs), vlib.Pick(r, longTTLs)
+		if vic < depth {
+			nsT[vic], dsT[vic] = vlib.Pick(r, longTTLs), vlib.Pick(r, longTTLs)
 		}
+		attl, neg = 86400, 86400
 	}
 	secI := 0
 	if sec {
